@@ -187,11 +187,13 @@ pre_thread(struct emu *emu)
 
 	switch (ev->v) {
 		case 'C': /* create */
-			dbg("thread %d creates a new thread at cpu=%d with args=%x %x",
-					th->tid,
-					ev->payload->u32[0],
-					ev->payload->u32[1],
-					ev->payload->u32[2]);
+			if (ev->payload_size >= 12) {
+				dbg("thread %d creates a new thread at cpu=%d with args=%x %x",
+						th->tid,
+						ev->payload->u32[0],
+						ev->payload->u32[1],
+						ev->payload->u32[2]);
+			}
 
 			break;
 		case 'x':
